@@ -220,6 +220,11 @@ func runC11(c C11Case) (c11Run, error) {
 	if err != nil {
 		return r, err
 	}
+	if c.RootSeed%3 == 0 {
+		// limits given at creation also hold after a Reset (a long-lived authorizer serves many requests)
+		a.AddFact(bridge.ToFact(m.P("warmup", m.Int(1))))
+		a.Reset()
+	}
 	bridge.AddAuthz(a, az)
 	t0 := time.Now()
 	r.err = a.Authorize()
